@@ -1,4 +1,6 @@
 import SeqVerif.Model.WritePathInv
+import SeqVerif.Model.WPIndexLemmas
+import SeqVerif.Model.WPPlain
 import SeqVerif.Extracted.C01
 /-!
 # C01 - acknowledged bulks survive any crash/restart history, intact and uncorrupted
@@ -50,6 +52,34 @@ theorem c01_unacked_atomic (h : List Ev) (hwf : ∀ e ∈ h, e.WF) :
       | nil => intro off; simp [entriesOf, stamped]
       | cons x bs ih => intro off; obtain ⟨d, m⟩ := x; simpa [entriesOf, stamped] using ih _
     exact this _ _
+
+/-- **C01 (document level: fetch by ID and search by token).**  `buildIndex` is what the index worker derives from
+the blocks it is handed (DocBlocks, DocsPositions with first-wins, token postings), `fetch` the active fraction's
+fetch path, for any decompression `cd` that does not look at the ext fields.  After any history, if the documents of
+the complete bulks carry distinct IDs, then every document of every acknowledged bulk - given as the list `ds` the
+bulk's two blocks decode to, bodies non-empty and shorter than 4 GiB - is fetched byte for byte by its ID and is
+among the documents each of its tokens leads to. -/
+theorem c01_docs_served (cd : IdxCodec) (hcd : cd.ExtFree) (h : List Ev) (hwf : ∀ e ∈ h, e.WF)
+    (hnd : (bulkIDs cd (completeOf h)).Nodup) (d m : Blk) (hb : (d, m) ∈ ackedOf h) (ds : List LDoc)
+    (hdocs : cd.docsRaw (enc d) = some (rawDocs ds)) (hmeta : cd.metaDocs (enc m) = metasOf ds)
+    (hsz : ∀ x ∈ ds, 0 < x.body.length ∧ x.body.length < 256 ^ 4) :
+    ∀ x ∈ ds, fetch cd (run true init h).docs (buildIndex cd (run true init h).idx) x.id = some x.body ∧
+      ∀ t ∈ x.tokens, x.id ∈ search (buildIndex cd (run true init h).idx) t := by
+  have hinv := run_fixed h init [] inv_init hwf
+  simp only [List.nil_append] at hinv
+  exact inv_docs_served cd hcd _ _ [] [] hinv hnd d m (ackedOf_sub_completeOf h _ hb) ds hdocs hmeta hsz
+
+/-- **C01 (a restart is invisible).**  Killing the store between two bulks and starting it again, anywhere in a
+history, gives exactly the store that never went down: same files, same writer offsets, and the indexer is handed the
+very same blocks with the same docs offsets in the same order - so whatever the index worker derives from them
+(IDs, positions, tokens) is what it derived while the bulks were being ingested. -/
+theorem c01_restart_transparent (h1 h2 : List Ev) (hwf : ∀ e ∈ h1, e.WF) :
+    run true init (h1 ++ .restart :: h2) = run true init (h1 ++ h2) := by
+  have hinv := run_fixed h1 init [] inv_init hwf
+  have hr : restart true (run true init h1).docs (run true init h1).mfile = run true init h1 :=
+    InvD_unique _ _ _ (restart_inv _ [] [] _ _ hinv.wf (.inl rfl) hinv.docs hinv.mfile).2 hinv
+  simp only [run, List.foldl_append, List.foldl_cons, step] at hr ⊢
+  rw [hr]
 
 /-- **C01 (the recovery itself may crash).**  After any history and a crash at any byte of a bulk, a start-up that
 is killed after cutting the meta file but before cutting the docs file, or after cutting both, and is then run
@@ -202,6 +232,28 @@ example : present (run true init sampleHistory) b3 m3 = true := by decide
 /-- a `Safe` history with a dirty crash at its end: the hypothesis of the partial theorem is satisfiable non-trivially -/
 example : Safe [.bulk wd1 wm1, .tornBulk wd2 wm2 (.docsTorn 0), .bulk b3 m3, .tornBulk wd2 wm2 (.metaTorn 5), .restart] = true := by
   decide
+/-- non-vacuity of `c01_docs_served`: the uncompressed codec (`PackDocBlock`) with the real `MetaData` layout,
+a two-document bulk and a one-document bulk around a crash -/
+def ldocs1 : List LDoc := [⟨(1000, 7), [123, 34, 97, 34, 125], [[115, 58, 97], [95, 97, 108, 108, 95, 58]]⟩, ⟨(1001, 8), [91, 93], [[115, 58, 98]]⟩]
+def ldocs2 : List LDoc := [⟨(1002, 9), [110, 117, 108, 108], [[115, 58, 97]]⟩]
+def pd (ds : List LDoc) : Blk := ⟨0, (rawDocs ds).length, 0, 0, rawDocs ds⟩
+def pm (ms : Bytes) : Blk := ⟨0, ms.length, 0, 0, ms⟩
+def metaBytes1 : Bytes :=
+  encMeta (1000, 7) 5 [([115], [97]), ([95, 97, 108, 108, 95], [])] ++ encMeta (1001, 8) 2 [([115], [98])]
+def metaBytes2 : Bytes := encMeta (1002, 9) 4 [([115], [97])]
+def docHistory : List Ev :=
+  [.bulk (pd ldocs1) (pm metaBytes1), .tornBulk (pd ldocs2) (pm metaBytes2) (.metaTorn 50), .bulk (pd ldocs2) (pm metaBytes2), .restart]
+
+example : plainCodec.ExtFree := plainCodec_extFree
+set_option maxRecDepth 8192 in
+example : plainCodec.metaDocs (enc (pm metaBytes1)) = metasOf ldocs1 ∧ plainCodec.docsRaw (enc (pd ldocs1)) = some (rawDocs ldocs1) := by
+  decide
+set_option maxRecDepth 16384 in
+example : (bulkIDs plainCodec (completeOf docHistory)).Nodup := by decide
+set_option maxRecDepth 16384 in
+example : fetch plainCodec (run true init docHistory).docs (buildIndex plainCodec (run true init docHistory).idx) (1001, 8) = some [91, 93] ∧
+    search (buildIndex plainCodec (run true init docHistory).idx) [115, 58, 97] = [(1000, 7), (1002, 9)] := by decide
+
 example : Safe orphanHistory = false ∧ Safe tornMetaHistory = false := by decide
 
 end SV.Props.C01
